@@ -47,6 +47,8 @@ def dump_mir(crate, outdir, log):
     """MIR text of `crate` as compiled from /repo's current working tree (nightly, -Zunpretty=mir)."""
     os.makedirs(outdir, exist_ok=True)
     out = os.path.join(outdir, crate + ".mir")
+    if os.environ.get("VERIF_REUSE_MIR") and os.path.exists(out):
+        return out      # shard worker: the parent process dumped it from the current tree moments ago
     env = _env()
     env["CARGO_TARGET_DIR"] = MIR_TARGET
     t0 = time.time()
@@ -79,6 +81,9 @@ class Replay:
 
     def build(self):
         if self.built:
+            return
+        if os.environ.get("VERIF_REUSE_MIR") and os.path.exists(self.bin):
+            self.built = True      # shard worker: built by the parent process
             return
         t0 = time.time()
         env = _env()
@@ -207,8 +212,8 @@ class Model:
 
 
 class Run:
-    def __init__(self, prop, tier, seed):
-        self.prop, self.tier, self.seed = prop, tier, seed
+    def __init__(self, prop, tier, seed, shard=None):
+        self.prop, self.tier, self.seed, self.shard = prop, tier, seed, shard
         self.t0 = time.time()
         self.mir_dir = os.path.join(WORK, "mir", prop)
         self.scen_dir = os.path.join(WORK, "scenarios", prop)
@@ -231,7 +236,8 @@ class Run:
 
     # ------------------------------------------------------------ plumbing
     def log(self, msg):
-        print(f"[{self.prop} {time.time() - self.t0:6.1f}s] {msg}", flush=True)
+        tag = self.prop if self.shard is None else f"{self.prop}#{self.shard[0]}"
+        print(f"[{tag} {time.time() - self.t0:6.1f}s] {msg}", flush=True)
 
     def _load_known(self):
         p = os.path.join(VERIF, "known_findings.json")
@@ -275,7 +281,7 @@ class Run:
 
     def explore(self, P, entry, make_args, world_factory=None, bound_ok=False, **kw):
         """bound_ok: the harness itself proves that paths ending in BoundExceeded are infeasible under its input bounds"""
-        res = explore(P, entry, make_args, world_factory, **kw)
+        res = explore(P, entry, make_args, world_factory, shard=self.shard, **kw)
         self.stats["paths"] += len(res)
         for ctx, out in res:
             self.stats["transitions"] += ctx.steps
@@ -390,6 +396,34 @@ class Run:
     def mismatch(self, what):
         self.inconclusive.append("ENGINE-MISMATCH " + what)
 
+    def dump_partial(self, path):
+        d = dict(stats=self.stats, samples=self.samples, functions=self.functions, summaries=sorted(self.summaries),
+                 candidates=self.candidates, inconclusive=self.inconclusive, extra=self.extra, by_label=self.by_label)
+        with open(path, "w") as f:
+            json.dump(d, f, default=str)
+
+    def merge_partial(self, path):
+        d = json.load(open(path))
+        for k, v in d["stats"].items():
+            self.stats[k] = self.stats.get(k, 0) + v
+        for smp in d["samples"]:
+            self.sample(smp, limit=16)
+        self.functions.update(d["functions"])
+        self.summaries |= set(d["summaries"])
+        self.candidates += d["candidates"]
+        self.inconclusive += d["inconclusive"]
+        for k, v in d["extra"].items():
+            if isinstance(v, dict) and all(isinstance(x, (int, float)) for x in v.values()):
+                cur = self.extra.setdefault(k, {})
+                for kk, vv in v.items():
+                    cur[kk] = cur.get(kk, 0) + vv
+            else:
+                self.extra.setdefault(k, v)
+        for k, (n, t) in d["by_label"].items():
+            cur = self.by_label.setdefault(k, [0, 0.0])
+            cur[0] += n
+            cur[1] += t
+
     def finish(self):
         violations, known_hits = [], {}
         for c in self.candidates:
@@ -413,8 +447,8 @@ class Run:
                 json.dump(dict(property=self.prop, signature=c["signature"], what=c["what"], scenario=c["scenario"], detail=c["detail"]), f, indent=1, default=str)
             print(f"VIOLATION property={self.prop} replay={path}")
             print(f"  {c['signature']}: {c['what']}")
-        for i in self.inconclusive[:20]:
-            print(f"INCONCLUSIVE property={self.prop} reason={i}")
+        for i in sorted(set(self.inconclusive))[:20]:
+            print(f"INCONCLUSIVE property={self.prop} reason={i[:400]}")
         code = 1 if violations else (2 if self.inconclusive else 0)
         self.write_evidence(len(seen), code, [s for s in known_hits])
         if os.environ.get("VERIF_DEBUG"):
@@ -461,22 +495,57 @@ def main(argv):
     ap.add_argument("prop")
     ap.add_argument("--tier", default=os.environ.get("VERIF_TIER", "quick"))
     ap.add_argument("--replay", default=None)
+    ap.add_argument("--shard", default=None)        # internal: i/k
+    ap.add_argument("--partial", default=None)      # internal: partial result file of a shard
     a = ap.parse_args(argv)
     seed = int(os.environ.get("VERIF_SEED", "0") or 0)
     tier = a.tier if a.tier in ("quick", "thorough") else "quick"
-    run = Run(a.prop, tier, seed)
+    shard = tuple(int(x) for x in a.shard.split("/")) if a.shard else None
+    run = Run(a.prop, tier, seed, shard)
+    mod = None
     try:
         mod = importlib.import_module("harness." + a.prop)
         if a.replay:
             scen = json.load(open(a.replay))
-            code = mod.replay(run, scen)
-            return code
-        mod.main(run)
+            return mod.replay(run, scen)
+        nshards = getattr(mod, "SHARDS", {}).get(tier, 1) if shard is None else 1
+        if nshards > 1:
+            # the parent dumps the MIR and builds the replay driver once; workers reuse them
+            if hasattr(mod, "prepare"):
+                mod.prepare(run)
+            run.replay.build()
+            procs = []
+            env = dict(os.environ)
+            env["VERIF_REUSE_MIR"] = "1"
+            for i in range(nshards):
+                pf = os.path.join(run.scen_dir, f"partial-{i}.json")
+                if os.path.exists(pf):
+                    os.unlink(pf)
+                cmd = [sys.executable, "-c", "import sys; from mirsym.run import main; sys.exit(main(sys.argv[1:]))",
+                       a.prop, "--tier", tier, "--shard", f"{i}/{nshards}", "--partial", pf]
+                procs.append((pf, subprocess.Popen(cmd, cwd=VERIF, env=env)))
+            for pf, p in procs:
+                p.wait()
+                if os.path.exists(pf):
+                    run.merge_partial(pf)
+                else:
+                    run.inconclusive.append(f"shard worker produced no result ({pf})")
+            if hasattr(mod, "finalize"):
+                mod.finalize(run)
+        else:
+            mod.main(run)
+            if shard is None and hasattr(mod, "finalize"):
+                mod.finalize(run)
     except Inconclusive as e:
         run.inconclusive.append(str(e))
     except (Unsupported, BoundExceeded) as e:
+        if os.environ.get("VERIF_DEBUG"):
+            traceback.print_exc()
         run.inconclusive.append(f"{type(e).__name__}: {e}")
     except Exception as e:  # an internal error is never a pass
         traceback.print_exc()
         run.inconclusive.append(f"internal error {type(e).__name__}: {e}")
+    if a.partial:
+        run.dump_partial(a.partial)
+        return 0
     return run.finish()
